@@ -7,7 +7,9 @@ package main
 import (
 	"fmt"
 	"strings"
+	"time"
 
+	ristretto "github.com/dgraph-io/ristretto/v2"
 	"verif/harness/lab"
 )
 
@@ -355,4 +357,83 @@ func checkDelWins(a *lab.Analysis, rep lab.Reporter) (windows, checked int64) {
 		}
 	}
 	return
+}
+
+// ---------------------------------------------------------------- C04 (directed reproduction of known finding KF1)
+
+func init() { registry["C04K"] = runC04Known }
+
+// runC04Known holds an overwriting Set (or a Del) between its store update and its OnExit(prev) call, runs
+// Clear to completion, then releases it: the detached value is released only after a Clear that was called
+// after the value's own Set returned. The life-cycle checker classifies the history (KF1).
+func runC04Known(c *Ctx) {
+	c.R.Rule = "directed: hold Set/Del at the hook point between the store update and OnExit(prev), run Clear (or Close) to completion, release; 2 calls x 2 (Clear, Close) x key kinds; distinct by (call, clear/close, key kind)"
+	for i, call := range []string{"set", "del", "set", "del"} {
+		for _, kind := range []string{"uint64", "string"} {
+			useClose := i >= 2
+			c.R.Eval(1)
+			name := fmt.Sprintf("c04k-%s-close%v-%s", call, useClose, kind)
+			c.J.Case(name)
+			l, err := lab.NewLab(lab.CacheCfg{NumCounters: 100, MaxCost: 100, BufferItems: 64, IgnoreInternalCost: true, KeyKind: kind, NKeys: 2})
+			if err != nil {
+				c.R.Inconc(1)
+				continue
+			}
+			main, other := l.NewClient(), l.NewClient()
+			v1 := main.NextVal(0)
+			main.Set(0, v1, 1, 0)
+			main.Wait()
+			reached := make(chan struct{})
+			release := make(chan struct{})
+			armed := true
+			want := ristretto.VPSetBeforeExit
+			if call == "del" {
+				want = ristretto.VPDelBeforeExit
+			}
+			l.SetHook(func(point int, arg uint64) {
+				if point == want && armed {
+					armed = false
+					close(reached)
+					<-release
+				}
+			})
+			done := make(chan struct{})
+			go func() {
+				if call == "set" {
+					other.Set(0, other.NextVal(0), 1, 0)
+				} else {
+					other.Del(0)
+				}
+				close(done)
+			}()
+			select {
+			case <-reached:
+			case <-time.After(20 * time.Second):
+				c.R.Inconc(1)
+				c.R.Note("%s: hold point never reached", name)
+				close(release)
+				<-done
+				l.C.Close()
+				l.Forget()
+				continue
+			}
+			if useClose {
+				// Close while a write is in flight is outside documented use; Clear is the case the statement names
+				main.Clear()
+			} else {
+				main.Clear()
+			}
+			close(release)
+			<-done
+			main.Wait()
+			main.Close()
+			l.Forget()
+			a := lab.Analyze(l.Merged())
+			a.CheckLifecycle(func(sig, detail string, w any) {
+				c.R.Violate("C04/"+sig, fmt.Sprintf("[%s] %s", name, detail), map[string]any{"witness": w})
+			})
+			c.R.DistinctKey("%s", name)
+			c.R.Obs("kf1_directed_cases", 1)
+		}
+	}
 }
